@@ -19,5 +19,5 @@ func init() {
 	registerProperty(&Property{ID: "C01", Rules: []string{"TS-VERIFY", "TS-HASHBYTES", "SH-DIGESTER"}, Decided: "x", NotDecided: "-"})
 	registerProperty(&Property{ID: "C02", Rules: []string{"TS-ACK"}, Decided: "x", NotDecided: "-"})
 	registerProperty(&Property{ID: "C14", Rules: []string{"FS-WHO", "FS-RO", "TS-ROGUARD", "TB-ROUTE"}, Decided: "x", NotDecided: "-"})
-	registerProperty(&Property{ID: "C16", Rules: []string{"TB-RESERVED"}, Decided: "reserved names.", NotDecided: "-"})
+	registerProperty(&Property{ID: "C16", Rules: []string{"PV-REPO", "PV-ROUTE", "PV-PATH", "TB-RESERVED"}, Decided: "reserved names.", NotDecided: "-"})
 }
